@@ -1700,8 +1700,8 @@ impl AnnotationStore {
                         }
                     }
                     (
-                        Selector::AnnotationSelector(annotation, Some(_)),
-                        Selector::AnnotationSelector(annotation2, Some(_)),
+                        Selector::AnnotationSelector(annotation, Some((_, _, OffsetMode::BeginEnd))),
+                        Selector::AnnotationSelector(annotation2, Some((_, _, OffsetMode::BeginEnd))),
                     ) => {
                         if annotation2.as_usize() == annotation.as_usize() + 1 {
                             //we can only merge annotations that reference the entire underlying annotation's text and not a subpart of it
@@ -1729,7 +1729,7 @@ impl AnnotationStore {
                             end,
                             with_text: true,
                         },
-                        Selector::AnnotationSelector(annotation, Some(_)),
+                        Selector::AnnotationSelector(annotation, Some((_, _, OffsetMode::BeginEnd))),
                     ) => {
                         if annotation.as_usize() == end.as_usize() + 1 {
                             //we can only merge annotations that reference the entire underlying annotation's text and not a subpart of it
